@@ -4,6 +4,7 @@ Everything is built by construction (no filter/assume on the hot path).
 """
 import datetime
 import decimal
+import math
 import time
 
 from hypothesis import strategies as st
@@ -37,15 +38,24 @@ def near_edge(n):
 
 # ---------------------------------------------------------------- floats
 
+F32_MAX = 3.4028234663852886e38              # largest finite single
+F32_OVERFLOW = 3.4028235677973366e38         # F32_MAX + 2**103: first double -> inf
+
 def table_floats():
     """floats whose single-precision rounding is finite, plus +-inf and NaN"""
+    # the exact domain: doubles whose IEEE-single rounding is finite, i.e.
+    # |x| < FLT_MAX + half an ulp = 3.4028235677973366e38 (which itself rounds to inf)
+    top = math.nextafter(F32_OVERFLOW, 0.0)
     return st.one_of(
         st.floats(width=32, allow_nan=False),
-        st.floats(min_value=-3.4028234e38, max_value=3.4028234e38,
-                  allow_nan=False),
+        st.floats(min_value=-top, max_value=top, allow_nan=False),
+        st.floats(min_value=F32_MAX, max_value=top),
+        st.floats(min_value=-top, max_value=-F32_MAX),
         st.sampled_from([0.0, -0.0, float('inf'), float('-inf'), float('nan'),
-                         1e-45, -1e-45, 3.4028234663852886e38, 1.17549435e-38,
-                         0.1, 1 / 3]),
+                         1e-45, -1e-45, F32_MAX, -F32_MAX, top, -top,
+                         math.nextafter(F32_MAX, math.inf), 3.4028235e38,
+                         3.40282350000000003e38, 1.17549435e-38, 0.1, 1 / 3,
+                         math.nextafter(F32_MAX, 0.0)]),
     )
 
 
@@ -74,8 +84,28 @@ MIXED_CHARS = st.one_of(
     st.characters(min_codepoint=0x20, max_codepoint=0x7e),
     st.characters(min_codepoint=0x20, max_codepoint=0x7e),
     UNICODE,
-    st.sampled_from('\x00\x7f\x80߿ࠀ￿\U00010000\U0010ffff\xce'),
+    st.sampled_from('\x00\x7f\x80\u07ff\u0800\uffff\U00010000\U0010ffff\xce\ufeff\ufffe\ufffd'),
 )
+
+
+def surrogate_strs():
+    """str values containing lone surrogates - in particular the PEP 383
+    (surrogateescape) image of valid multi-byte UTF-8, which a lenient codec would
+    silently turn into different text"""
+    def escaped(t):
+        return ''.join(chr(0xDC00 + b) if b >= 0x80 else chr(b)
+                       for b in t.encode('utf-8'))
+    nonascii = st.text(st.characters(min_codepoint=0x80, exclude_categories=['Cs']),
+                       min_size=1, max_size=4)
+    return st.one_of(
+        st.builds(lambda a, t, b: a + escaped(t) + b, st.text(max_size=3), nonascii,
+                  st.text(max_size=3)),
+        st.text(st.characters(min_codepoint=0xD800, max_codepoint=0xDFFF), min_size=1,
+                max_size=3),
+        st.builds(lambda a, c: a + c, st.text(max_size=4),
+                  st.characters(min_codepoint=0xDC80, max_codepoint=0xDCFF)),
+        st.sampled_from(['caf\udcc3\udca9', '\udce2\udc82\udcac', '\ud83d\ude00',
+                         '\udcf0\udc9f\udc98\udc80', '\udcc3', '\udcff\udcfe']))
 
 
 def texts(max_size=40):
@@ -100,7 +130,11 @@ def shortstrs(max_bytes=255):
 
 def table_keys():
     """<= 128 characters and <= 255 UTF-8 bytes; '' included"""
+    from pbt import harvest
+    words = [w for w in harvest.key_like() if len(w) <= 128 and
+             '\ud800' <= 'a'] or ['k']
     return st.one_of(
+        st.sampled_from(words),
         st.text(MIXED_CHARS, max_size=12),
         st.text(st.characters(min_codepoint=0x61, max_codepoint=0x7a),
                 min_size=1, max_size=6),
@@ -141,6 +175,14 @@ def _dt(seconds, micro, kind, offset_min):
         y, mo, d, h, mi, s = canon.utc_fields(seconds)
         utc = datetime.datetime(y, mo, d, h, mi, s, micro, tzinfo=canon.RULETZ)
         return canon.RULETZ.fromutc(utc)
+    if kind == 'offset_us':  # aware, UTC offset with seconds and microseconds (PEP 615 ok)
+        off = datetime.timedelta(minutes=offset_min, seconds=offset_min % 60,
+                                 microseconds=(offset_min * 7919 + 500000) % 1000000)
+        tz = datetime.timezone(off)
+        y, mo, d, h, mi, s = canon.utc_fields(seconds)
+        utc = datetime.datetime(y, mo, d, h, mi, s, micro,
+                                tzinfo=datetime.timezone.utc)
+        return utc.astimezone(tz)
     tz = datetime.timezone(datetime.timedelta(minutes=offset_min))
     y, mo, d, h, mi, s = canon.utc_fields(seconds + offset_min * 60)
     return datetime.datetime(y, mo, d, h, mi, s, micro, tzinfo=tz)
@@ -163,7 +205,7 @@ def epoch_seconds_st():
                          MAX_TS - 1, MAX_TS, 1700000000]))
 
 
-def datetimes(kinds=('naive', 'utc', 'offset', 'nulltz', 'ruletz')):
+def datetimes(kinds=('naive', 'utc', 'offset', 'nulltz', 'ruletz', 'offset_us')):
     """instants epoch..2106-02-07T06:28:15, with microseconds"""
     return st.builds(
         _dt, epoch_seconds_st(),
@@ -192,6 +234,83 @@ def struct_times():
         epoch_seconds_st().map(_struct_time),
         st.builds(_struct_time_gmtoff, epoch_seconds_st(),
                   st.sampled_from([0, 3600, -18000, 19800, 50400, -43200, 1])))
+
+
+# ---------------------------------------------------------------- refused leaves
+
+def bad_leaves():
+    """values the encoder refuses inside a table, one per *kind of exception* it uses
+    (OverflowError, struct.error, ValueError, UnicodeEncodeError, decimal signals,
+    TypeError) - what matters is what the library does *afterwards*"""
+    return st.sampled_from([
+        1e39, -1e300,                                        # OverflowError
+        datetime.datetime(1969, 12, 31, 23, 0, 0),           # struct.error (negative)
+        datetime.datetime(1960, 1, 1, tzinfo=datetime.timezone.utc),
+        decimal.Decimal('12345678901234567890.5'),           # struct.error (32 bit)
+        decimal.Decimal('1E-300'),                           # struct.error (scale)
+        # decimal signals (Overflow / Inexact in the thread's context); huge *positive*
+        # exponents are left out: int(Decimal('1E+1000000')) takes minutes by itself
+        decimal.Decimal('1E-1000000'), decimal.Decimal('-1E-999999'),
+        decimal.Decimal('1E-1000001'), decimal.Decimal('1E+400'),
+        decimal.Decimal('NaN'), decimal.Decimal('Infinity'),  # ValueError / OverflowError
+        '\ud800', 'a\udfff',                                 # UnicodeEncodeError
+        2 ** 64, -2 ** 63 - 1,                               # TypeError
+        (1, 2), b'bytes', {1, 2}, 1j, canon.Opaque(),        # TypeError (unknown type)
+    ])
+
+
+def bad_tables():
+    """a small valid table with exactly one refused leaf somewhere inside; returns
+    (table, path) where path locates the bad leaf (for repair)"""
+    def build(bad, shape, key):
+        if shape == 0:
+            return {'ok': 1, key: bad}
+        if shape == 1:
+            return {'ok': 1, 'inner': {key: bad, 'z': 'v'}}
+        if shape == 2:
+            return {'ok': [1, bad, 'x']}
+        if shape == 3:
+            return {'a': {'b': [{'c': bad}]}, 'ok': True}
+        return {'\u20ac' * 100: 1, 'ok': 2} if shape == 4 else {key: [bad]}
+    return st.builds(build, bad_leaves(), st.integers(0, 5),
+                     st.sampled_from(['bad', 'x', '']))
+
+
+def repair(v, good=7):
+    """the same containers with every refused leaf replaced in place by `good`"""
+    bad_types = (float, datetime.datetime, decimal.Decimal, str, int, tuple, bytes, set,
+                 complex, canon.Opaque)
+
+    def is_bad(x):
+        if isinstance(x, bool) or x is None:
+            return False
+        if isinstance(x, float):
+            return abs(x) > 3.5e38
+        if isinstance(x, datetime.datetime):
+            return x.year < 1970
+        if isinstance(x, decimal.Decimal):
+            return True
+        if isinstance(x, str):
+            return any('\ud800' <= c <= '\udfff' for c in x)
+        if isinstance(x, int):
+            return not -2 ** 63 <= x < 2 ** 63
+        return isinstance(x, (tuple, bytes, set, complex, canon.Opaque))
+    if isinstance(v, dict):
+        for k in list(v):
+            if len(k.encode('utf-8', 'surrogatepass')) > 255:
+                v['short'] = v.pop(k)
+                k = 'short'
+            if isinstance(v[k], (dict, list)):
+                repair(v[k], good)
+            elif is_bad(v[k]):
+                v[k] = good
+    elif isinstance(v, list):
+        for i, x in enumerate(v):
+            if isinstance(x, (dict, list)):
+                repair(x, good)
+            elif is_bad(x):
+                v[i] = good
+    return v
 
 
 # ---------------------------------------------------------------- field values
